@@ -284,12 +284,12 @@ def preVoteResp (v : Vol) (q : VoteReq) : Resp :=
 
 def preVotePlan (v : Vol) (q : VoteReq) : Plan := ⟨[], mkRes (preVoteResp v q) v⟩
 
-/-- `reloadLastLog`: the cached last-log position re-read from the store (unchanged if the read fails) -/
+/-- `reloadLastLog`: the cached last-log position re-read from the store (reset if the read fails) -/
 def reloadLast (d : Durable) (v : Vol) : Vol :=
   if d.high = 0 then { v with lastLogIdx := 0, lastLogTerm := 0 }
   else match getLog d.log d.high with
     | some e => { v with lastLogIdx := e.index, lastLogTerm := e.term }
-    | none => v
+    | none => { v with lastLogIdx := 0, lastLogTerm := 0 }     -- unreadable: nothing assumed
 
 /-- does the server hold `(idx, term)`: as its snapshot's last entry, or in the log (`holdsEntry`) -/
 def holdsEntry (d : Durable) (v : Vol) (idx term : Nat) : Bool :=
@@ -300,7 +300,7 @@ def holdsEntry (d : Durable) (v : Vol) (idx term : Nat) : Bool :=
     | none => false
 
 /-- can `reloadLastLog` read the store's last entry -/
-def reloadable (d : Durable) : Bool := d.high = 0 || (getLog d.log d.high).isSome
+def reloadable (_d : Durable) : Bool := true
 
 /-! ## AppendEntries (raft.go:1458) -/
 
